@@ -508,6 +508,7 @@ func enumPathsOpts(fn *ssa.Function, limit, maxVisits int, opts InlineOpts) (pat
 				c := s.term(x.Cond)
 				nc, pol := normCond(c)
 				cv, cok := constCond(nc)
+				literal := cok // decided by the literals alone (tagless switch, folded constants): not a fact about the input
 				if !cok {
 					if known, ok := s.facts.get(nc); ok {
 						cv, cok = known, true
@@ -530,8 +531,10 @@ func enumPathsOpts(fn *ssa.Function, limit, maxVisits int, opts InlineOpts) (pat
 					for strings.HasPrefix(cc, "!!") {
 						cc = cc[2:]
 					}
-					ns.path.Conds = append(ns.path.Conds, cc)
-					ns.path.CondIns = append(ns.path.CondIns, x)
+					if !literal {
+						ns.path.Conds = append(ns.path.Conds, cc)
+						ns.path.CondIns = append(ns.path.CondIns, x)
+					}
 					run(ns, succ, b, 0, fr)
 				}
 				return
